@@ -139,7 +139,10 @@ func (ih *ImportHandler) addNamed(t named) string {
 			}
 			ih.imports[i.PkgPath] = i
 		}
-		alias = i.Alias + "."
+		// a dot-import puts the package's exported names into the file scope: no qualifier.
+		if i.Alias != "." {
+			alias = i.Alias + "."
+		}
 	}
 
 	// Recurse into type arguments for generic types
